@@ -76,8 +76,9 @@ def slug(s):
 
 
 # ------------------------------------------------------------------------------------ verus
-def run_verus(path, rlimit, seed=None, threads=4, timeout=600, extra=()):
-    cmd = [VERUS, os.path.basename(path), '--output-json', '--time', '--multiple-errors', '20',
+def run_verus(path, rlimit, seed=None, threads=4, timeout=None, extra=()):
+    timeout = timeout or (75 if rlimit <= 40 else 600)
+    cmd = [VERUS, os.path.basename(path), '--output-json', '--time', '--multiple-errors', '6',
            '--triggers-mode', 'silent', '--rlimit', str(rlimit), '--num-threads', str(threads),
            '--error-format=json']
     if seed is not None:
@@ -452,7 +453,7 @@ def run_unit(unit_dir, tier, seed, scratch):
     u.auto_stubs = sorted({st['qual'] for lst in auto.values() for st in lst}) if auto else []
     u.auto_map = auto
     u.confirmed = []
-    if u.status == 'undecided' and u.reason.startswith(('main: front end', 'main: verus front end', 'extraction:', 'generator error')):
+    if u.status == 'undecided' and not u.reason.startswith(('vacuity', 'contract too weak', 'unstable')):
         # the proof could not even be attempted (lost anchor / unsupported construct).  That is never an
         # alarm by itself; but a concrete failing input found by replaying the extracted real code is.
         try:
@@ -604,7 +605,7 @@ def report(prop, tier, seed, results, extras, wall, rebaseline, replay):
             elif f.fn is None:
                 undecided.append('%s: failure outside extracted code: %s (%s)' % (u.name, f.message, f.site[:80]))
             elif b and f.fn not in b.get('functions', []) and not rebaseline:
-                undecided.append('%s: %s fails but is not in the baseline of discharged functions' % (u.name, nm))
+                undecided.append('%s: %s fails but its function is not in the baseline of verified functions' % (u.name, nm))
             else:
                 violations.append((u, f, nm))
         for c in getattr(u, 'confirmed', []):
@@ -625,7 +626,7 @@ def report(prop, tier, seed, results, extras, wall, rebaseline, replay):
             fn_rows.append(dict(unit=u.name, **fr))
         for lab in u.labels:
             samples.append('%s:%s' % (u.name, lab))
-        newbase[u.name] = dict(functions=sorted({fr['fn'] for fr in u.functions if fr.get('success')}),
+        newbase[u.name] = dict(functions=sorted({fr['fn'] for fr in u.functions if fr.get('success') is not None}),
                                labels=u.labels, verified=u.verified)
         # vacuity / count floor
         b = baseline.get(u.name)
